@@ -62,7 +62,10 @@ func Write(w io.Writer, scalerType uint32, tables map[string][]byte) (int64, err
 	}
 
 	// temporarily clear the checksum in the "head" table
-	if headData, ok := tables["head"]; ok {
+	if headData := tables["head"]; headData != nil {
+		if len(headData) < 12 {
+			return 0, errors.New("sfnt/header: head table too short")
+		}
 		clearChecksum(headData)
 	}
 
@@ -93,7 +96,7 @@ func Write(w io.Writer, scalerType uint32, tables map[string][]byte) (int64, err
 	totalSum += checksum(headerBytes)
 
 	// set the final checksum in the "head" table
-	if headData, ok := tables["head"]; ok {
+	if headData := tables["head"]; headData != nil {
 		patchChecksum(headData, totalSum)
 	}
 
